@@ -104,6 +104,30 @@ pub fn generate(rng: &mut Rng, thorough: bool, out: &mut Out) {
             }
         }
     }
+    // small features far from the origin ("at any position … micrometre features to kilometres"): exact
+    // dyadic placement — scale 2^-6 … 2^-12, offset ±2^10 … ±2^21 in both coordinates — so that every
+    // orientation test of the input is decided exactly; all four entry points, both windings
+    for i in 0..(if thorough { 3000 } else { 360 }) {
+        let kind = [2u64, 4, 8, 2][i % 4];
+        let n = 5 + rng.below(14) as usize;
+        let v = family(rng, kind, n);
+        let shift = rng.below(v.len() as u64) as usize;
+        let sp = -(6 + rng.below(7) as i32);
+        let off_pow = 10 + rng.below(12) as i32;
+        let t = 2f64.powi(off_pow - sp);
+        let sx = if rng.chance(0.5) { 1.0 } else { -1.0 };
+        let sy = if rng.chance(0.5) { 1.0 } else { -1.0 };
+        let v = place_exact(&v, rng.below(4), sp, Pt2::new(sx * t, sy * t), i % 3 == 0, shift);
+        match i % 4 {
+            0 => { let (q, r) = run2("tri2d", v); out.case(q, r); }
+            1 => { let (q, r) = run2("tri2d_rev", v); out.case(q, r); }
+            k => {
+                let ps: Vec<Pt3> = v.iter().map(|p| Pt3::new(p.x, p.y, 3.0)).collect();
+                let (q, r) = run3(if k == 2 { "tri3d" } else { "tri3d_rev" }, ps, Pt3::new(0.0, 0.0, if i % 8 < 4 { 1.0 } else { -1.0 }));
+                out.case(q, r);
+            }
+        }
+    }
     // planes whose normal has two or three components of exactly equal magnitude (the choice of the
     // projection axis is a tie there), either sign, scaled; integer bases keep the embedding exact
     let bases: [([f64; 3], [f64; 3]); 8] = [
